@@ -15,7 +15,8 @@ CONSTANTS NN,        \* number of source elements
           Terms,     \* terminal kinds
           Nts,       \* values of num_threads (0 = Auto)
           Css,       \* chunk settings: <<"cs" | "csmin", value>> (value 0 = Auto)
-          Fans       \* what one element may produce
+          Fans,      \* what one element may produce
+          Crashes    \* crash points <<stage, key>>; <<-1, 0>> = no closure panics
 
 \* named alternatives for the configuration files (a .cfg cannot spell tuples)
 Cs_1_2 == {<<"cs", 1>>, <<"cs", 2>>}
@@ -26,25 +27,28 @@ Cs_all == {<<"cs", 1>>, <<"cs", 2>>, <<"cs", 3>>, <<"csmin", 1>>, <<"csmin", 2>>
 Fans_012 == {<<>>, <<0>>, <<0, 1>>}
 Fans_find == {<<>>, <<0>>, <<1>>, <<0, 1>>}
 Fans_1 == {<<0>>}
+NoCrash == {<<-1, 0>>}
+\* the first closure panics on source position 0, 1, 2 or 3
+CrashStage1 == {<<1, 0>>, <<1, 1>>, <<1, 2>>, <<1, 3>>}
 
 IdInput == [i \in 1..NN |-> i - 1]
 
-MkProg(src, term, nt, cs, tt, mapOnly) ==
+MkProg(src, term, nt, cs, tt, mapOnly, cr) ==
   [src |-> src, input |-> IdInput,
    ops |-> << [k |-> "nt", t |-> <<>>, tt |-> <<>>, v |-> nt, h |-> 0],
               [k |-> cs[1], t |-> <<>>, tt |-> <<>>, v |-> cs[2], h |-> 0],
               IF mapOnly THEN [k |-> "map", t |-> [i \in 1..NN |-> 1], tt |-> <<>>, v |-> 0, h |-> 0]
               ELSE [k |-> "flat", t |-> <<>>, tt |-> tt, v |-> 0, h |-> 0] >>,
    term |-> [k |-> term, t |-> <<0, 1>>, op |-> "add", tk |-> "vec", pre |-> <<>>, cap |-> 0],
-   cs |-> -1, ck |-> 0]
+   cs |-> cr[1], ck |-> cr[2]]
 
 Tables == [1..NN -> Fans]
 
-Progs == {MkProg(src, term, nt, cs, tt, FALSE) :
-             src \in Srcs, term \in Terms, nt \in Nts, cs \in Css, tt \in Tables}
+Progs == {MkProg(src, term, nt, cs, tt, FALSE, cr) :
+             src \in Srcs, term \in Terms, nt \in Nts, cs \in Css, tt \in Tables, cr \in Crashes}
          \cup
-         {MkProg(src, term, nt, cs, <<>>, TRUE) :
-             src \in Srcs, term \in Terms \cap {"collect_vec"}, nt \in Nts, cs \in Css}
+         {MkProg(src, term, nt, cs, <<>>, TRUE, cr) :
+             src \in Srcs, term \in Terms \cap {"collect_vec"}, nt \in Nts, cs \in Css, cr \in Crashes}
 
 Init == \E p \in Progs : InitFor(p)
 Spec == Init /\ [][Next]_vars /\ WF_vars(Next)
